@@ -628,6 +628,42 @@ fn mode_case(rng: &mut Rng, inp: &mut String, out: &mut String) {
         e
     )
     .unwrap();
+    // model-independent cross-check: the same transaction end through revm's own hook
+    // (immediate mode), finalized and classified by the real code, must commit what the deferred
+    // path commits
+    {
+        let ctx = Context::mainnet().with_db(make_db(&db)).with_cfg(env.cfg()).with_block(env.block()).with_tx(env.tx());
+        let mut evm_i = ctx.build_mainnet();
+        if let Some((f, a)) = &journal {
+            evm_i.ctx.journal_mut().evm_state_mut().insert(BEN, make_account(*f, a));
+        }
+        let mut frame_i = FrameResult::Call(CallOutcome::new(
+            InterpreterResult::new(InstructionResult::Stop, Bytes::new(), env.gas()),
+            0..0,
+        ));
+        let di = ben::mode_apply::<_, EVMError<Infallible, InvalidTransaction>>(false, &mut evm_i, &mut frame_i)
+            .expect("infallible");
+        let state_i = evm_i.ctx.journal_mut().finalize();
+        let fi = state_i.get(&BEN);
+        if di.is_some() {
+            out.push_str(" X:immediate-mode-deferred");
+        }
+        match d {
+            None => {
+                if show_jacct(fi) != show_jacct(f.as_ref()) {
+                    out.push_str(" X:settled-deferred-mode-differs-from-immediate");
+                }
+            }
+            Some(r) => {
+                let want = ben::apply_to(r, db.as_ref().map(Acct::info));
+                let ok = f.is_none()
+                    && matches!(fi.map(ben::classify), Some((3, Some(ref i))) if *i == want);
+                if !ok {
+                    out.push_str(" X:deferred-credit-differs-from-immediate");
+                }
+            }
+        }
+    }
     // model-independent cross-check of the deferral rule itself
     if let Some(d) = d {
         if d.is_zero() {
